@@ -247,7 +247,7 @@ package multiplex
 //@ ghost func seshOK(sesh *Session) bool {
 //@     return sesh != nil && sesh.sb != nil && cipherOK(&sesh.Obfuscator) && sesh.Valve != nil && sesh.maxStreamUnitWrite == sesh.MsgOnWireSizeLimit - 14 - 255 && sesh.streamSendBufferSize == sesh.MsgOnWireSizeLimit && sesh.maxStreamUnitWrite > 0 && sesh.sb.session == sesh
 //@ }
-//@ ghost func closable(sesh *Session) bool { return seshOK(sesh) && sesh.sb.valve != nil }
+//@ ghost func closable(sesh *Session) bool { return seshOK(sesh) && sesh.sb.valve != nil && sesh.connReceiveBufferSize >= 0 }
 //@ ghost func streamOK(s *Stream) bool { return s != nil && s.recvBuf != nil && closable(s.session) }
 // a configuration from which MakeSession builds a session every operation accepts (closable): an AEAD of
 // the two supported shapes or none, and an on-wire limit that leaves room for at least one payload byte
@@ -274,7 +274,7 @@ package multiplex
 //@   atcall Write requires pacedFirst: calls("(Valve).txWait") == 1
 //@   atcall AddTx requires chargesWhatWasSent: int(arg0.(int64)) == n
 //@   modifies *
-//@   preserves Frame.StreamID, Frame.Seq, Frame.Closing, Frame.Payload, Stream.id, Stream.session, Stream.recvBuf, Session.sb, SessionConfig.MsgOnWireSizeLimit, Session.maxStreamUnitWrite, Session.streamSendBufferSize, SessionConfig.Unordered, SessionConfig.Valve, SessionConfig.Singleplex, Obfuscator.payloadCipher, switchboard.session, switchboard.valve, heap(B_Slice)
+//@   preserves Frame.StreamID, Frame.Seq, Frame.Closing, Frame.Payload, Stream.id, Stream.session, Stream.recvBuf, Session.sb, SessionConfig.MsgOnWireSizeLimit, Session.maxStreamUnitWrite, Session.streamSendBufferSize, Session.connReceiveBufferSize, SessionConfig.Unordered, SessionConfig.Valve, SessionConfig.Singleplex, Obfuscator.payloadCipher, switchboard.session, switchboard.valve, heap(B_Slice)
 
 //@ func (*Session).SetTerminalMsg
 //@   flag trusted
@@ -287,11 +287,11 @@ package multiplex
 //@   ensures connectionsClosed: ret0 == nil ==> called("(*switchboard).closeAll")
 //@   ensures locks: holdsAsAtEntry()
 //@   modifies *
-//@   preserves Frame.StreamID, Frame.Seq, Frame.Closing, Frame.Payload, Stream.id, Stream.session, Stream.recvBuf, Session.sb, SessionConfig.MsgOnWireSizeLimit, Session.maxStreamUnitWrite, Session.streamSendBufferSize, SessionConfig.Unordered, SessionConfig.Valve, SessionConfig.Singleplex, Obfuscator.payloadCipher, switchboard.session, switchboard.valve, heap(B_Slice)
+//@   preserves Frame.StreamID, Frame.Seq, Frame.Closing, Frame.Payload, Stream.id, Stream.session, Stream.recvBuf, Session.sb, SessionConfig.MsgOnWireSizeLimit, Session.maxStreamUnitWrite, Session.streamSendBufferSize, Session.connReceiveBufferSize, SessionConfig.Unordered, SessionConfig.Valve, SessionConfig.Singleplex, Obfuscator.payloadCipher, switchboard.session, switchboard.valve, heap(B_Slice)
 
 // Seq is incremented exactly once per encode, on every path (a number may be skipped, never reused).
 //@ func (*Stream).obfuscateAndSend
-//@   requires s.session != nil && seshOK(s.session) && s.session.sb.session != nil && s.session.sb.valve != nil
+//@   requires s.session != nil && closable(s.session)
 //@   requires locked: held(s.writingM)
 //@   requires order: locksBelow(s.session.streamsM)
 //@   requires placement: payloadOffsetInBuf == 14 ==> aliases(s.writingFrame.Payload, buf, 14)
@@ -301,7 +301,7 @@ package multiplex
 //@   ensures frameKept: s.writingFrame.StreamID == old(s.writingFrame.StreamID) && s.writingFrame.Closing == old(s.writingFrame.Closing) && sameSlice(s.writingFrame.Payload, old(s.writingFrame.Payload))
 //@   ensures bigEnoughSucceedsEncoding: len(old(s.writingFrame.Payload)) == 0 ==> ret0 != nil
 //@   modifies *
-//@   preserves Frame.StreamID, Frame.Closing, Frame.Payload, Stream.id, Stream.session, Stream.recvBuf, Session.sb, SessionConfig.MsgOnWireSizeLimit, Session.maxStreamUnitWrite, Session.streamSendBufferSize, SessionConfig.Unordered, SessionConfig.Valve, SessionConfig.Singleplex, Obfuscator.payloadCipher, switchboard.session, switchboard.valve, heap(B_Slice)
+//@   preserves Frame.StreamID, Frame.Closing, Frame.Payload, Stream.id, Stream.session, Stream.recvBuf, Session.sb, SessionConfig.MsgOnWireSizeLimit, Session.maxStreamUnitWrite, Session.streamSendBufferSize, Session.connReceiveBufferSize, SessionConfig.Unordered, SessionConfig.Valve, SessionConfig.Singleplex, Obfuscator.payloadCipher, switchboard.session, switchboard.valve, heap(B_Slice)
 
 
 //@ func (*Stream).isClosed
@@ -310,7 +310,7 @@ package multiplex
 // Write: the whole call runs under writingM; every frame goes through obfuscateAndSend; a datagram that
 // does not fit one frame is refused without emitting anything (C14); nothing is sent on a closed stream.
 //@ func (*Stream).Write
-//@   requires s.session != nil && seshOK(s.session) && s.session.sb.session != nil && s.session.sb.valve != nil
+//@   requires s.session != nil && closable(s.session)
 //@   requires notHeld: holdsNone()
 //@   requires keyApart: arrayOf(in) != arrayOf(s.session.sessionKey)
 //@   ensures bounds: 0 <= n && n <= len(in)
@@ -318,8 +318,8 @@ package multiplex
 //@   ensures allAccepted: err == nil ==> n == len(in)
 //@   ensures idKept: s.writingFrame.StreamID == old(s.writingFrame.StreamID) && s.writingFrame.Closing == old(s.writingFrame.Closing)
 //@   modifies *
-//@   preserves Frame.StreamID, Frame.Closing, Stream.id, Stream.session, Stream.recvBuf, Session.sb, SessionConfig.MsgOnWireSizeLimit, Session.maxStreamUnitWrite, Session.streamSendBufferSize, SessionConfig.Unordered, SessionConfig.Valve, SessionConfig.Singleplex, Obfuscator.payloadCipher, switchboard.session, switchboard.valve
-//@   loop 0 invariant sesh: s.session != nil && seshOK(s.session) && s.session.sb.session != nil && s.session.sb.valve != nil
+//@   preserves Frame.StreamID, Frame.Closing, Stream.id, Stream.session, Stream.recvBuf, Session.sb, SessionConfig.MsgOnWireSizeLimit, Session.maxStreamUnitWrite, Session.streamSendBufferSize, Session.connReceiveBufferSize, SessionConfig.Unordered, SessionConfig.Valve, SessionConfig.Singleplex, Obfuscator.payloadCipher, switchboard.session, switchboard.valve
+//@   loop 0 invariant sesh: s.session != nil && closable(s.session)
 //@   loop 0 invariant range: 0 <= n && n <= len(in)
 //@   loop 0 invariant lock: held(s.writingM)
 //@   loop 0 invariant datagram: s.session.Unordered && len(in) > s.session.maxStreamUnitWrite ==> n == 0 && s.writingFrame.Seq == old(s.writingFrame.Seq)
@@ -330,16 +330,16 @@ package multiplex
 //@ func (recvBuffer).Close
 //@   flag trusted
 //@   modifies *
-//@   preserves Frame.StreamID, Frame.Seq, Frame.Closing, Frame.Payload, Stream.id, Stream.session, Stream.recvBuf, Session.sb, SessionConfig.MsgOnWireSizeLimit, Session.maxStreamUnitWrite, Session.streamSendBufferSize, SessionConfig.Unordered, SessionConfig.Valve, SessionConfig.Singleplex, Obfuscator.payloadCipher, switchboard.session, switchboard.valve, heap(B_Slice), Session.streams, heap(MD_Int_Pmultiplex.Stream), heap(MV_Int_Pmultiplex.Stream)
+//@   preserves Frame.StreamID, Frame.Seq, Frame.Closing, Frame.Payload, Stream.id, Stream.session, Stream.recvBuf, Session.sb, SessionConfig.MsgOnWireSizeLimit, Session.maxStreamUnitWrite, Session.streamSendBufferSize, Session.connReceiveBufferSize, SessionConfig.Unordered, SessionConfig.Valve, SessionConfig.Singleplex, Obfuscator.payloadCipher, switchboard.session, switchboard.valve, heap(B_Slice), Session.streams, heap(MD_Int_Pmultiplex.Stream), heap(MV_Int_Pmultiplex.Stream)
 //@ func (recvBuffer).Write
 //@   flag trusted
 //@   modifies *
-//@   preserves Frame.StreamID, Frame.Seq, Frame.Closing, Frame.Payload, Stream.id, Stream.session, Stream.recvBuf, Session.sb, SessionConfig.MsgOnWireSizeLimit, Session.maxStreamUnitWrite, Session.streamSendBufferSize, SessionConfig.Unordered, SessionConfig.Valve, SessionConfig.Singleplex, Obfuscator.payloadCipher, switchboard.session, switchboard.valve, heap(B_Slice), Session.streams
+//@   preserves Frame.StreamID, Frame.Seq, Frame.Closing, Frame.Payload, Stream.id, Stream.session, Stream.recvBuf, Session.sb, SessionConfig.MsgOnWireSizeLimit, Session.maxStreamUnitWrite, Session.streamSendBufferSize, Session.connReceiveBufferSize, SessionConfig.Unordered, SessionConfig.Valve, SessionConfig.Singleplex, Obfuscator.payloadCipher, switchboard.session, switchboard.valve, heap(B_Slice), Session.streams
 //@ func (recvBuffer).Read
 //@   flag trusted
 //@   ensures 0 <= n && n <= len(p)
 //@   modifies *
-//@   preserves Frame.StreamID, Frame.Seq, Frame.Closing, Frame.Payload, Stream.id, Stream.session, Stream.recvBuf, Session.sb, SessionConfig.MsgOnWireSizeLimit, Session.maxStreamUnitWrite, Session.streamSendBufferSize, SessionConfig.Unordered, SessionConfig.Valve, SessionConfig.Singleplex, Obfuscator.payloadCipher, switchboard.session, switchboard.valve, heap(B_Slice), Session.streams
+//@   preserves Frame.StreamID, Frame.Seq, Frame.Closing, Frame.Payload, Stream.id, Stream.session, Stream.recvBuf, Session.sb, SessionConfig.MsgOnWireSizeLimit, Session.maxStreamUnitWrite, Session.streamSendBufferSize, Session.connReceiveBufferSize, SessionConfig.Unordered, SessionConfig.Valve, SessionConfig.Singleplex, Obfuscator.payloadCipher, switchboard.session, switchboard.valve, heap(B_Slice), Session.streams
 
 //@ func (*Session).Close
 //@   requires closable(sesh) && !held(sesh.streamsM) && locksBelow(sesh.streamsM)
@@ -350,7 +350,7 @@ package multiplex
 //@   ensures connectionsClosed: ret0 == nil ==> called("(*switchboard).closeAll")
 //@   ensures locks: holdsAsAtEntry()
 //@   modifies *
-//@   preserves Frame.StreamID, Frame.Seq, Frame.Closing, Frame.Payload, Stream.id, Stream.session, Stream.recvBuf, Session.sb, SessionConfig.MsgOnWireSizeLimit, Session.maxStreamUnitWrite, Session.streamSendBufferSize, SessionConfig.Unordered, SessionConfig.Valve, SessionConfig.Singleplex, Obfuscator.payloadCipher, switchboard.session, switchboard.valve, heap(B_Slice), heap(F_server.ActiveUser.panel), heap(F_server.ActiveUser.sessions), heap(F_server.ActiveUser.valve), heap(F_server.ActiveUser.bypass), heap(F_server.userPanel.Manager), heap(F_server.userPanel.activeUsers), heap(F_server.userPanel.usageUpdateQueue), heap(MD_Int_Pmultiplex.Session), heap(MV_Int_Pmultiplex.Session), heap(MC)
+//@   preserves Frame.StreamID, Frame.Seq, Frame.Closing, Frame.Payload, Stream.id, Stream.session, Stream.recvBuf, Session.sb, SessionConfig.MsgOnWireSizeLimit, Session.maxStreamUnitWrite, Session.streamSendBufferSize, Session.connReceiveBufferSize, SessionConfig.Unordered, SessionConfig.Valve, SessionConfig.Singleplex, Obfuscator.payloadCipher, switchboard.session, switchboard.valve, heap(B_Slice), heap(F_server.ActiveUser.panel), heap(F_server.ActiveUser.sessions), heap(F_server.ActiveUser.valve), heap(F_server.ActiveUser.bypass), heap(F_server.userPanel.Manager), heap(F_server.userPanel.activeUsers), heap(F_server.userPanel.usageUpdateQueue), heap(MD_Int_Pmultiplex.Session), heap(MV_Int_Pmultiplex.Session), heap(MC)
 
 //@ func (*Session).streamCountDecr
 //@   flag inline
@@ -363,7 +363,7 @@ package multiplex
 // obfuscateAndSend - hence with the next sequence number, under writingM - and the sequence counter is
 // never reset. The table entry is replaced by nil under streamsM.
 //@ func (*Session).closeStream
-//@   requires s != nil && s.session == sesh && seshOK(sesh) && sesh.sb.session != nil && sesh.sb.valve != nil && s.recvBuf != nil
+//@   requires s != nil && s.session == sesh && closable(sesh) && s.recvBuf != nil
 //@   requires activeLocked: active ==> held(s.writingM)
 //@   requires order: locksBelow(sesh.streamsM)
 //@   ensures seqNeverReset: s.writingFrame.Seq == old(s.writingFrame.Seq) || nextSeq(old(s.writingFrame.Seq), s.writingFrame.Seq)
@@ -378,33 +378,33 @@ package multiplex
 //@   ensures countedOnce: calls("(*Session).streamCountDecr") <= 1 && (ret0 == nil ==> calls("(*Session).streamCountDecr") == 1)
 //@   ensures repeatedCloseCountsNothing: old(s.closed) != 0 ==> ret0 != nil && calls("(*Session).streamCountDecr") == 0
 //@   modifies *
-//@   preserves Frame.StreamID, Stream.id, Stream.session, Stream.recvBuf, Session.sb, SessionConfig.MsgOnWireSizeLimit, Session.maxStreamUnitWrite, Session.streamSendBufferSize, SessionConfig.Unordered, SessionConfig.Valve, SessionConfig.Singleplex, Obfuscator.payloadCipher, switchboard.session, switchboard.valve, heap(B_Slice)
+//@   preserves Frame.StreamID, Stream.id, Stream.session, Stream.recvBuf, Session.sb, SessionConfig.MsgOnWireSizeLimit, Session.maxStreamUnitWrite, Session.streamSendBufferSize, Session.connReceiveBufferSize, SessionConfig.Unordered, SessionConfig.Valve, SessionConfig.Singleplex, Obfuscator.payloadCipher, switchboard.session, switchboard.valve, heap(B_Slice)
 
 //@ func (*Stream).Close
-//@   requires s.session != nil && seshOK(s.session) && s.session.sb.session != nil && s.session.sb.valve != nil && s.recvBuf != nil
+//@   requires s.session != nil && closable(s.session) && s.recvBuf != nil
 //@   requires notHeld: holdsNone()
 //@   ensures seqNeverReset: s.writingFrame.Seq == old(s.writingFrame.Seq) || nextSeq(old(s.writingFrame.Seq), s.writingFrame.Seq)
 //@   modifies *
-//@   preserves Frame.StreamID, Stream.id, Stream.session, Stream.recvBuf, Session.sb, SessionConfig.MsgOnWireSizeLimit, Session.maxStreamUnitWrite, Session.streamSendBufferSize, SessionConfig.Unordered, SessionConfig.Valve, SessionConfig.Singleplex, Obfuscator.payloadCipher, switchboard.session, switchboard.valve, heap(B_Slice)
+//@   preserves Frame.StreamID, Stream.id, Stream.session, Stream.recvBuf, Session.sb, SessionConfig.MsgOnWireSizeLimit, Session.maxStreamUnitWrite, Session.streamSendBufferSize, Session.connReceiveBufferSize, SessionConfig.Unordered, SessionConfig.Valve, SessionConfig.Singleplex, Obfuscator.payloadCipher, switchboard.session, switchboard.valve, heap(B_Slice)
 
 //@ func (*Stream).passiveClose
-//@   requires s.session != nil && seshOK(s.session) && s.session.sb.session != nil && s.session.sb.valve != nil && s.recvBuf != nil
+//@   requires s.session != nil && closable(s.session) && s.recvBuf != nil
 //@   requires order: locksBelow(s.session.streamsM)
 //@   ensures sendsNothing: s.writingFrame.Seq == old(s.writingFrame.Seq)
 //@   modifies *
-//@   preserves Frame.StreamID, Stream.id, Stream.session, Stream.recvBuf, Session.sb, SessionConfig.MsgOnWireSizeLimit, Session.maxStreamUnitWrite, Session.streamSendBufferSize, SessionConfig.Unordered, SessionConfig.Valve, SessionConfig.Singleplex, Obfuscator.payloadCipher, switchboard.session, switchboard.valve, heap(B_Slice)
+//@   preserves Frame.StreamID, Stream.id, Stream.session, Stream.recvBuf, Session.sb, SessionConfig.MsgOnWireSizeLimit, Session.maxStreamUnitWrite, Session.streamSendBufferSize, Session.connReceiveBufferSize, SessionConfig.Unordered, SessionConfig.Valve, SessionConfig.Singleplex, Obfuscator.payloadCipher, switchboard.session, switchboard.valve, heap(B_Slice)
 
 // ReadFrom: the encode+send of every chunk happens under writingM (taken around obfuscateAndSend only)
 //@ func (*Stream).ReadFrom
-//@   requires s.session != nil && seshOK(s.session) && s.session.sb.session != nil && s.session.sb.valve != nil
+//@   requires s.session != nil && closable(s.session)
 //@   requires notHeld: holdsNone()
 //@   ensures idKept: s.writingFrame.StreamID == old(s.writingFrame.StreamID)
 //@   # C03: a chunk is sent only after the stream was seen open AFTER the read that produced it (the read
 //@   # may have been unblocked by a Close): nothing is written on a stream closed in the meantime
 //@   atcall obfuscateAndSend requires recheckedAfterRead: calls("(*Stream).isClosed") == calls("(io.Reader).Read")
 //@   modifies *
-//@   preserves Frame.StreamID, Stream.id, Stream.session, Stream.recvBuf, Session.sb, SessionConfig.MsgOnWireSizeLimit, Session.maxStreamUnitWrite, Session.streamSendBufferSize, SessionConfig.Unordered, SessionConfig.Valve, SessionConfig.Singleplex, Obfuscator.payloadCipher, switchboard.session, switchboard.valve
-//@   loop 0 invariant sesh: s.session != nil && seshOK(s.session) && s.session.sb.session != nil && s.session.sb.valve != nil
+//@   preserves Frame.StreamID, Stream.id, Stream.session, Stream.recvBuf, Session.sb, SessionConfig.MsgOnWireSizeLimit, Session.maxStreamUnitWrite, Session.streamSendBufferSize, Session.connReceiveBufferSize, SessionConfig.Unordered, SessionConfig.Valve, SessionConfig.Singleplex, Obfuscator.payloadCipher, switchboard.session, switchboard.valve
+//@   loop 0 invariant sesh: s.session != nil && closable(s.session)
 //@   loop 0 invariant nolocks: holdsNone()
 //@   loop 0 invariant rechecks: calls("(*Stream).isClosed") == calls("(io.Reader).Read")
 //@   loop 0 invariant id: s.writingFrame.StreamID == old(s.writingFrame.StreamID)
@@ -511,17 +511,17 @@ package multiplex
 // AddConnection hands the connection to the switchboard (its receive goroutine is not followed here);
 // the caller's configuration objects are not touched (assumed; see C01 for addConn itself).
 //@ func (*Session).AddConnection
-//@   flag trusted
-//@   requires sesh != nil
+//@   requires closable(sesh) && conn != nil
+//@   ensures handedOver: called("(*switchboard).addConn")
 //@   modifies *
 //@   preserves heap(F_server.State.Panel), heap(F_server.State.AdminUID), heap(F_server.State.ProxyBook)
 
 // ---------------------------------------------------------------------------------------------
 // Receive path (C11 "dropped without effect, later frames still processed"; C12 teardown on read error)
 // ---------------------------------------------------------------------------------------------
-//@ define SKEEP Frame.StreamID, Frame.Seq, Frame.Closing, Frame.Payload, Stream.id, Stream.session, Stream.recvBuf, Session.sb, SessionConfig.MsgOnWireSizeLimit, Session.maxStreamUnitWrite, Session.streamSendBufferSize, SessionConfig.Unordered, SessionConfig.Valve, SessionConfig.Singleplex, Obfuscator.payloadCipher, switchboard.session, switchboard.valve, heap(B_Slice)
+//@ define SKEEP Frame.StreamID, Frame.Seq, Frame.Closing, Frame.Payload, Stream.id, Stream.session, Stream.recvBuf, Session.sb, SessionConfig.MsgOnWireSizeLimit, Session.maxStreamUnitWrite, Session.streamSendBufferSize, Session.connReceiveBufferSize, SessionConfig.Unordered, SessionConfig.Valve, SessionConfig.Singleplex, Obfuscator.payloadCipher, switchboard.session, switchboard.valve, heap(B_Slice)
 // the same without the frame templates of streams (a close rewrites the closing stream's template)
-//@ define PKEEP Frame.StreamID, Stream.id, Stream.session, Stream.recvBuf, Session.sb, SessionConfig.MsgOnWireSizeLimit, Session.maxStreamUnitWrite, Session.streamSendBufferSize, SessionConfig.Unordered, SessionConfig.Valve, SessionConfig.Singleplex, Obfuscator.payloadCipher, switchboard.session, switchboard.valve, heap(B_Slice)
+//@ define PKEEP Frame.StreamID, Stream.id, Stream.session, Stream.recvBuf, Session.sb, SessionConfig.MsgOnWireSizeLimit, Session.maxStreamUnitWrite, Session.streamSendBufferSize, Session.connReceiveBufferSize, SessionConfig.Unordered, SessionConfig.Valve, SessionConfig.Singleplex, Obfuscator.payloadCipher, switchboard.session, switchboard.valve, heap(B_Slice)
 // constructors: a new pipe has its condition variable (with its own mutex) and an empty buffer, is open
 // and has no deadline; a new stream buffer expects sequence number 0 first and has nothing parked; a new
 // stream is open, carries the id it was made for in every frame it will send, starts at sequence number
@@ -556,11 +556,20 @@ package multiplex
 //@   requires sb != nil && sb.buf != nil && sb.buf.rwCond != nil && !held(sb.buf.rwCond.L) && locksBelow(sb.buf.rwCond.L)
 //@   ensures handedToThePipe: called("(*streamBufferedPipe).SetReadDeadline")
 //@   flag noframe
+// Accept: a stream or ErrBrokenSession, nothing else (the accept queue is a channel: what it delivers is
+// not modelled beyond "a stream pointer or, once closed, nil")
+//@ func (*Session).Accept
+//@   requires sesh != nil
+//@   ensures streamOrBroken: (ret1 == nil && ret0 != nil) || (ret1 == ErrBrokenSession && ret0 == nil)
+//@   # (the closed flag is an atomic cell other goroutines may flip at any time: listed so that callers do not rely on it)
+//@   modifies sesh.closed
+//@ func (*Session).TerminalMsg
+//@   requires sesh != nil
 // recvFrame (C03): the frame goes to the receive buffer; the stream is closed (passively: nothing is
 // sent back) exactly when the buffer reports that the closing frame's turn has come; a repeated closing
 // is not an error.
 //@ func (*Stream).recvFrame
-//@   requires s != nil && frame != nil && s.recvBuf != nil && s.session != nil && seshOK(s.session) && s.session.sb.session != nil && s.session.sb.valve != nil
+//@   requires s != nil && frame != nil && s.recvBuf != nil && s.session != nil && closable(s.session)
 //@   requires order: locksBelow(s.session.streamsM)
 //@   atcall passiveClose requires onlyWhenItsTurnHasCome: toBeClosed
 //@   ensures deliveredOnce: calls("(recvBuffer).Write") == 1
@@ -654,10 +663,10 @@ package multiplex
 // addConn (C01 "a healthy session keeps working"): the connection is stored before the count that makes
 // its id eligible for pickRandConn is published.
 //@ func (*switchboard).addConn
-//@   requires sb != nil && conn != nil
+//@   requires sb != nil && conn != nil && closable(sb.session) && sb.valve != nil
 //@   atcall AddUint32 requires storedBeforePublished: called("(*sync.Map).LoadOrStore")
 //@   flag noframe
-//@   loop 0 invariant live: sb != nil && conn != nil
+//@   loop 0 invariant live: sb != nil && conn != nil && closable(sb.session) && sb.valve != nil
 
 // ---------------------------------------------------------------------------------------------
 // C12: stream count bookkeeping and the inactivity timer
